@@ -84,6 +84,17 @@ def _reset_code_under_test():
     """One run = one fresh 'process' of the library: memoised state that the code
     under test keeps at module level (functools caches on functions and methods)
     is cleared, so that a run cannot depend on the runs this worker did before."""
+    # the process-wide random generators are state too: a run must not depend on how far
+    # earlier runs (or the interpreter's start-up seeding) have advanced them
+    import random as _random
+
+    _random.seed(0x5EED)
+    try:
+        import numpy as _np
+
+        _np.random.seed(0x5EED)
+    except Exception:
+        pass
     if os.environ.get("XSIM_NO_RESET") == "1":  # (to exercise the cli's fresh-interpreter fallback)
         return
     mods = [m for n, m in list(sys.modules.items())
